@@ -481,118 +481,166 @@ func ruleJoin(c *Ctx) {
 		c.Unresolved("Serializer.decBlock", "function not found")
 	}
 	fg := p.FGOf(fd)
-	// limit the path enumeration to the part before the tape loop plus one iteration (loops unrolled once)
-	paths, ok := fg.AllPaths(400000)
-	if !ok {
+	// Compositional analysis: (A) every path from the entry to the head of the tape loop (or to a return before it),
+	// (B) every path of one loop iteration from a fresh symbolic state — back to the head, or out through a return
+	// inside the body or after the loop.  Loop iterations contain no launch/wait/defer event (checked), so the
+	// decoder state at the head is the state after (A) whatever the number of iterations; a whole path is one (A)
+	// summary followed by one returning (B) path.
+	loop := mainSwitchLoop(p, fd)
+	if loop == nil {
+		c.Unresolved("Deserialize:tape-loop", "main tag loop not found")
+		return
+	}
+	head := fg.LoopHead(loop)
+	pre, ok1 := fg.EnumSegment(0, 0, map[int]bool{head: true}, 200000)
+	seg, ok2 := fg.EnumSegment(head, 0, map[int]bool{head: true}, 200000)
+	if !ok1 || !ok2 {
 		c.Undecided("Deserialize:paths", p.Pos(fd), "too many paths")
 		return
 	}
-	type pend struct{ wg, call string }
-	bad := map[string]bool{}
-	nRet := 0
-	nNilRet := 0
-	slots := map[string]bool{}
-	slotBad := map[string]string{}
-	for _, pa := range paths {
-		env := p.NewFuncEnv(fd)
-		sp := p.ExecPath(pa, env)
-		if sp.RetNode == nil || !sp.Feasible() {
-			continue
-		}
-		nRet++
-		// replay effects/conds in order
-		pending := map[string]string{} // wg -> call atom that may have launched
-		deferred := map[string]bool{}
-		type evt struct {
-			at   int
-			kind string
-			a, b string
-		}
-		var evts []evt
+	type jevt struct {
+		at         int
+		kind       string // launch | failed | wait | defer | slotnil
+		a, b, slot string
+	}
+	eventsOf := func(sp *SymPath, env *SymEnv) []jevt {
+		var evts []jevt
 		for _, ef := range sp.Effects {
 			switch {
-			case ef.Kind == "call" && ef.Target == "Serializer.decBlock" && len(ef.Args) >= 3:
-				wg := strings.TrimPrefix(ef.Args[2].String(), "&")
-				evts = append(evts, evt{ef.At, "launch", wg, ef.Val.String()})
+			case ef.Kind == "call" && ef.Target == "Serializer.decBlock" && len(ef.Args) >= 4:
+				evts = append(evts, jevt{ef.At, "launch", atomBase(strings.TrimPrefix(ef.Args[2].String(), "&")), ef.Val.String(), atomBase(strings.TrimPrefix(ef.Args[3].String(), "&"))})
 			case ef.Kind == "call" && strings.HasSuffix(ef.Target, "sync.WaitGroup).Wait"):
-				evts = append(evts, evt{ef.At, "wait", atomBase(ef.Base), ""})
+				evts = append(evts, jevt{ef.At, "wait", atomBase(ef.Base), "", ""})
 			case ef.Kind == "defer" && strings.HasSuffix(ef.Target, "sync.WaitGroup).Wait"):
 				if ds, ok := ef.Node.(*ast.DeferStmt); ok {
 					if sel, ok := ds.Call.Fun.(*ast.SelectorExpr); ok {
 						if path, ok := env.lvalPath(sel.X); ok {
-							evts = append(evts, evt{ef.At, "defer", path, ""})
+							evts = append(evts, jevt{ef.At, "defer", atomBase(path), "", ""})
 						}
 					}
 				}
 			}
 		}
 		for _, cd := range sp.Conds {
+			if cd.Other != "" {
+				continue
+			}
+			la, _ := cd.L.SingleAtom()
+			ra, _ := cd.R.SingleAtom()
 			// err != nil right after a decBlock call: that call launched nothing
-			if cd.Other == "" && cd.Op == token.NEQ {
-				la, _ := cd.L.SingleAtom()
-				ra, _ := cd.R.SingleAtom()
-				if strings.Contains(la, "decBlock(") && ra == "nil" {
-					evts = append(evts, evt{cd.At, "failed", "", la})
-				}
+			if cd.Op == token.NEQ && strings.Contains(la, "decBlock(") && ra == "nil" {
+				evts = append(evts, jevt{cd.At, "failed", "", la, ""})
+			}
+			if cd.Op == token.EQL && ra == "nil" && la != "" && !strings.Contains(la, "(") {
+				evts = append(evts, jevt{cd.At, "slotnil", "", "", atomBase(la)})
 			}
 		}
-		// order by event index
-		for i := 1; i < len(evts); i++ {
-			for j := i; j > 0 && evts[j].at < evts[j-1].at; j-- {
-				evts[j], evts[j-1] = evts[j-1], evts[j]
-			}
+		sort.SliceStable(evts, func(i, j int) bool { return evts[i].at < evts[j].at })
+		return evts
+	}
+	// decoder state
+	type jstate struct {
+		pending  map[string]string // wg -> launching call atom
+		deferred map[string]bool
+		slotWg   map[string]string // slot -> wg of its decoder (launched and not failed)
+		slotCall map[string]string
+		waited   map[string]bool // slot: its wg was waited for after the launch
+		checked  map[string]bool // slot: compared with nil after that wait
+	}
+	newState := func() *jstate {
+		return &jstate{map[string]string{}, map[string]bool{}, map[string]string{}, map[string]string{}, map[string]bool{}, map[string]bool{}}
+	}
+	cloneState := func(a *jstate) *jstate {
+		b := newState()
+		for k, v := range a.pending {
+			b.pending[k] = v
 		}
+		for k, v := range a.deferred {
+			b.deferred[k] = v
+		}
+		for k, v := range a.slotWg {
+			b.slotWg[k] = v
+		}
+		for k, v := range a.slotCall {
+			b.slotCall[k] = v
+		}
+		for k, v := range a.waited {
+			b.waited[k] = v
+		}
+		for k, v := range a.checked {
+			b.checked[k] = v
+		}
+		return b
+	}
+	apply := func(st *jstate, evts []jevt) {
 		for _, e := range evts {
 			switch e.kind {
 			case "launch":
-				pending[e.a] = e.b
+				st.pending[e.a] = e.b
+				st.slotWg[e.slot] = e.a
+				st.slotCall[e.slot] = e.b
+				st.waited[e.slot], st.checked[e.slot] = false, false
 			case "failed":
-				for wg, call := range pending {
+				for wg, call := range st.pending {
 					if call == e.b {
-						delete(pending, wg)
+						delete(st.pending, wg)
+					}
+				}
+				for sl, call := range st.slotCall {
+					if call == e.b {
+						delete(st.slotWg, sl)
+						delete(st.slotCall, sl)
 					}
 				}
 			case "wait":
-				delete(pending, e.a)
+				delete(st.pending, e.a)
+				for sl, wg := range st.slotWg {
+					if wg == e.a {
+						st.waited[sl] = true
+					}
+				}
 			case "defer":
-				deferred[e.a] = true
+				st.deferred[e.a] = true
+			case "slotnil":
+				if st.waited[e.slot] {
+					st.checked[e.slot] = true
+				}
 			}
 		}
-		// a successful return has looked at every decoder's error slot, after waiting for that decoder
+	}
+	stateKey := func(st *jstate) string {
+		var ks []string
+		for k, v := range st.pending {
+			ks = append(ks, "p:"+k+"="+v)
+		}
+		for k := range st.deferred {
+			ks = append(ks, "d:"+k)
+		}
+		for k, v := range st.slotWg {
+			ks = append(ks, fmt.Sprintf("s:%s=%s w%v c%v", k, v, st.waited[k], st.checked[k]))
+		}
+		sort.Strings(ks)
+		return strings.Join(ks, ";")
+	}
+	bad := map[string]bool{}
+	nRet, nNilRet := 0, 0
+	slots := map[string]bool{}
+	slotBad := map[string]string{}
+	atReturn := func(st *jstate, sp *SymPath) {
+		nRet++
+		for sl := range st.slotWg {
+			slots[sl] = true
+		}
 		if len(sp.Ret) >= 1 && isNilAff(sp.Ret[len(sp.Ret)-1]) {
 			nNilRet++
-			for _, ef := range sp.Effects {
-				if !(ef.Kind == "call" && ef.Target == "Serializer.decBlock" && len(ef.Args) >= 4) {
-					continue
-				}
-				wg := strings.TrimPrefix(ef.Args[2].String(), "&")
-				slot := strings.TrimPrefix(ef.Args[3].String(), "&")
-				slots[slot] = true
-				waitAt := -1
-				for _, e2 := range sp.Effects {
-					if e2.Kind == "call" && strings.HasSuffix(e2.Target, "sync.WaitGroup).Wait") && atomBase(e2.Base) == wg && e2.At > ef.At {
-						if waitAt < 0 {
-							waitAt = e2.At
-						}
-					}
-				}
-				checked := false
-				for _, cd := range sp.Conds {
-					if cd.Other != "" || cd.Op != token.EQL || !isNilAff(cd.R) {
-						continue
-					}
-					la := cd.L.String()
-					if (la == slot || strings.HasPrefix(la, slot+"@")) && waitAt >= 0 && cd.At > waitAt {
-						checked = true
-					}
-				}
-				if !checked && slotBad[slot] == "" {
-					slotBad[slot] = p.Pos(sp.RetNode)
+			for sl := range st.slotWg {
+				if !st.checked[sl] && slotBad[sl] == "" {
+					slotBad[sl] = p.Pos(sp.RetNode)
 				}
 			}
 		}
-		for wg := range pending {
-			if deferred[wg] {
+		for wg := range st.pending {
+			if st.deferred[wg] {
 				continue
 			}
 			site := "Deserialize:return-without-wait:" + wg
@@ -603,6 +651,49 @@ func ruleJoin(c *Ctx) {
 			}
 		}
 	}
+	headStates := map[string]*jstate{}
+	for _, pa := range pre {
+		env := p.NewFuncEnv(fd)
+		sp := p.ExecPath(pa, env)
+		if !sp.Feasible() {
+			continue
+		}
+		st := newState()
+		apply(st, eventsOf(sp, env))
+		if sp.RetNode != nil {
+			atReturn(st, sp)
+			continue
+		}
+		headStates[stateKey(st)] = st
+	}
+	c.Unit("deserialize_head_states", len(headStates))
+	c.MinCount("decoder states at the tape loop head", len(headStates), 1)
+	nIter := 0
+	for _, pa := range seg {
+		env := p.NewFuncEnv(fd)
+		sp := p.ExecPath(pa, env)
+		if !sp.Feasible() {
+			continue
+		}
+		evts := eventsOf(sp, env)
+		if sp.RetNode == nil {
+			nIter++
+			for _, e := range evts {
+				if e.kind != "slotnil" {
+					c.Undecided("Deserialize:loop-iteration-event", p.Pos(fd), "a tape loop iteration contains a "+e.kind+" event: the compositional join analysis does not apply")
+				}
+			}
+			continue
+		}
+		for _, hs := range headStates {
+			st := cloneState(hs)
+			apply(st, evts)
+			atReturn(st, sp)
+		}
+	}
+	c.Unit("deserialize_pre_paths", len(pre))
+	c.Unit("deserialize_iteration_paths", len(seg))
+	c.MinCount("tape loop iterations analysed", nIter, 10)
 	c.MinCount("Deserialize returning paths", nRet, 20)
 	c.MinCount("Deserialize successful paths", nNilRet, 1)
 	c.MinCount("decoder error slots", len(slots), 4)
